@@ -43,6 +43,7 @@ type Program struct {
 	anchorKey    map[*ssa.Function]string // closures bound to a contract by a source anchor
 	anchored     map[string]bool          // pkgPath::key of anchored contracts
 	srcCache     map[string][]byte
+	chanTouch    map[*ssa.Function]bool
 	anchorNotes  []string
 }
 
